@@ -161,11 +161,11 @@ def run(ctx):
     ctx.exhaustive_subspaces.append('every int index, in-range slice (start/stop None,-d..d; step None,1,2,3) and index list (length <= 3, repeats) on dims 0..%d: read and written' % (5 if big else 4))
     # re-chunking, packing, big rings
     ev = []
-    for k in (8, 16, 32, 64):
+    for k in (8, 16, 32, 64, 12, 4, 24, 9):
         for d in range(0, 5):
             for rep in range(3 if big else 1):
                 a = [rnd.choice([0, (1 << k) - 1, 1 << (k - 1), rnd.getrandbits(k)]) for _ in range(d)]
-                for k2 in (1, 2, 4, 8, 16, 32):
+                for k2 in (1, 2, 3, 4, 6, 8, 12, 16, 32):
                     if k2 < k and k % k2 == 0:
                         for be in (False, True): ev.append(ev_un('split', k, a, k2=k2, be=be))
                 ev.append(ev_un('pack', k, a))
